@@ -340,6 +340,14 @@ def write_replay(pid, obj):
 def finish(chk, ob, br, trusted_base, assumptions, rule, checker_cmd):
     """Verdict per DESIGN 2.7; writes evidence; returns exit code."""
     pid = chk.pid
+    try:
+        from harness import impl as _impl
+        for x in _impl.FOREIGN_ANCHORS:
+            chk.diverge("trust anchors in force = RP-supplied roots + the built-in roots (pinned constants of webauthn.helpers.known_root_certs)",
+                        f"a certificate store built during verification held an anchor that is neither: {x['subject']} sha256={x['fingerprint']}", x)
+        del _impl.FOREIGN_ANCHORS[:]
+    except Exception:
+        pass
     known = [k for k in load_known() if k.get("property") == pid and k.get("status") == "known"]
     lines = []
     unlisted = []
